@@ -11,6 +11,8 @@ CONSTANTS
  DevListFromReplica = FALSE
  DevNoFallbackOnCtxErr = FALSE
  DevReplicaTimeoutShadows = FALSE
+ Concurrent = TRUE
+ DevCoalesceIgnoresRange = FALSE
 INIT Init
 NEXT Next
 INVARIANTS C44_ReadMatchesPrimary C44_PrimaryOnly C44_ReachesPrimary
